@@ -26,17 +26,19 @@ type PkgInfo struct {
 }
 
 type Engine struct {
-	RepoDir  string
-	VerifDir string
-	fset     *token.FileSet
-	prog     *ssa.Program
-	pkgs     map[string]*PkgInfo // by import path
-	byShort  map[string]*PkgInfo
-	stdlib   *ContractFile // trusted contracts for library functions
-	stdPkg   *PkgInfo
-	prelude  *ContractFile
-	Warnings []string
-	allPkgs  map[string]*packages.Package
+	RepoDir   string
+	VerifDir  string
+	fset      *token.FileSet
+	prog      *ssa.Program
+	pkgs      map[string]*PkgInfo // by import path
+	byShort   map[string]*PkgInfo
+	stdlib    *ContractFile // trusted contracts for library functions
+	stdPkg    *PkgInfo
+	prelude   *ContractFile
+	Warnings  []string
+	allPkgs   map[string]*packages.Package
+	tables    map[string]*tableInfo
+	constStrs map[*ssa.Global]*string
 }
 
 const ContractFileName = "zz_verif_contracts.go"
